@@ -340,8 +340,17 @@ impl C04 {
 						.find(|t| t.tx_slate_id == Some(d.id) && t.tx_type == TxLogEntryType::TxSent);
 					if let Some(e) = e {
 						if !e.confirmed {
+							// the transaction's own outputs held by this wallet (its change):
+							// from the context where the DealBook read it, else (late lock)
+							// from the finalized transaction itself
+							let tx_outs: Vec<_> = d
+								.tx
+								.as_ref()
+								.map(|t| t.outputs().iter().map(|o| o.commitment()).collect())
+								.unwrap_or_default();
 							let change_taken = snap.outputs.iter().any(|o| {
-								d.change.iter().any(|(k, _)| *k == o.key_id.to_hex())
+								(d.change.iter().any(|(k, _)| *k == o.key_id.to_hex())
+									|| tx_outs.contains(&run.ex.world.commit_of(w, o)))
 									&& o.tx_log_entry != Some(e.id)
 							});
 							sig = if change_taken {
